@@ -1216,6 +1216,8 @@ impl<'a> Exec<'a> {
                 });
             }
         }
+        let table_diff: Option<String> =
+            diffs.iter().find(|d| matches!(d.area, Area::Schema | Area::Rows | Area::Tables)).map(|d| d.msg.clone());
         self.map_diffs(diffs, phase);
         // C16: that read-only session wrote nothing, whichever way it closes
         let mode = self.aux(7) % 3;
@@ -1254,7 +1256,15 @@ impl<'a> Exec<'a> {
             }
         }
         let api_failed = self.done;
+        let byte_failed_before = self.byte_level_failed;
         self.byte_oracle(image);
+        if let Some(m) = table_diff {
+            if !faulty && phase != Phase::FirstOpen && !self.byte_level_failed && !byte_failed_before {
+                // the independent decoder reads this library-saved file as the model has it,
+                // the API does not: "decodes ... to the same tables and rows the API reports"
+                self.viol("C08.api-vs-decode", "reopen", format!("the saved file decodes as expected, but the API reports otherwise: {}", m));
+            }
+        }
         if api_failed || self.done {
             return;
         }
